@@ -4,7 +4,7 @@ From Coq Require Import List Arith ZArith Bool Lia.
 From Verif Require Import lib.Wire c15.Lts c15.Model c15.Spec c15.Proofs c15.Proofs_Chan c15.Proofs_Loc c15.Proofs_List c15.Proofs_Safe
   c15.Proofs_Init c15.Proofs_Live c15.Proofs_Pend c15.Proofs_Idx c15.Proofs_Dead c15.Proofs_Prog c15.Proofs_Valid c15.Proofs_WildOK
   c15.Proofs_Blk c15.Proofs_Obs c15.Proofs_Loc3 c15.Proofs_WSI c15.Proofs_TY c15.Proofs_Rule13 c15.Proofs_Mon c15.Proofs_MonS
-  c15.Proofs_Tr c15.Proofs_Cpl c15.Proofs_RCtx c15.Proofs_R3 c15.Proofs_R4 c15.Proofs_RegA.
+  c15.Proofs_Tr c15.Proofs_Cpl c15.Proofs_RCtx c15.Proofs_R3 c15.Proofs_R5 c15.Proofs_R4 c15.Proofs_RegA c15.Proofs_RegB c15.Proofs_RegW.
 Import ListNotations.
 
 Lemma bmap_len_cfg : forall c s1, length (bmap (St c s1)) = NT c.
@@ -94,4 +94,28 @@ Proof.
   intros c s1 W. unfold St. apply (invariant_run _ _ _ step (fun st => Forall em_ok (emitters st))).
   - intros a t l b H E. eapply step_emok; eassumption.
   - destruct (cfg_wf_init c W) as [[_ [He _]] _]. eapply Forall_impl; [|exact He]. intros m [_ X] _. left. exact X.
+Qed.
+
+(* ---- listing invariants on reachable states ------------------------------------------------ *)
+Lemma lb_cfg : forall c s1, cfg_wf c = true -> LB (St c s1).
+Proof.
+  intros c s1 W. unfold St. apply (coupled_run_all (fun st _ => LB st)).
+  - intros s cs n nd Ec En. destruct (cfg_wf_init c W) as [[[Hn _] _] _]. rewrite Hn in En. destruct n; discriminate.
+  - intros s0 t l st' L E. destruct (reach_cfg c s0 W) as [G _]. eapply step_lb; [apply G|apply G|exact L|exact E].
+Qed.
+
+Lemma b1_cfg : forall c s1, cfg_wf c = true -> B1 (St c s1).
+Proof.
+  intros c s1 W. unfold St. apply (coupled_run_all (fun st _ => B1 st)).
+  - intros s cs tys Ec Et Hp. destruct (cfg_wf_init c W) as [[[_ [_ [_ [_ [Hs _]]]]] _] _].
+    rewrite (Forall_nth_error _ _ _ _ Hs Ec) in Hp. cbn in Hp. destruct Hp; discriminate.
+  - intros s0 t l st' B E. destruct (reach_cfg c s0 W) as [G [_ [_ TV]]].
+    destruct t; try (eapply B1_same; [exact B|eapply other_wS; [|exact E]; exact I]). cbn [step] in E.
+    eapply sub_b1; [apply G|apply G|apply TYV_TY, TV|exact B|exact E].
+Qed.
+
+Lemma regw_cfg : forall c s1, cfg_wf c = true -> RegW (St c s1).
+Proof.
+  intros c s1 W. unfold St. apply (coupled_run_all (fun st _ => RegW st)); [apply initial_rw, init_initial, W|].
+  intros s0 t l st' R E. destruct (reach_cfg c s0 W) as [G [L3 [WS _]]]. eapply step_rw; [apply G|exact L3|exact WS|exact R|exact E].
 Qed.
